@@ -77,7 +77,9 @@ def lanczos_tridiag(
 
     # Begin algorithm
     # Initial Q vector: q_0_vec
-    q_0_vec = init_vecs / torch.norm(init_vecs, 2, dim=dim_dimension).unsqueeze(dim_dimension)
+    # Normalize in two steps (first by the largest entry) so that the squared norm cannot under- or overflow
+    q_0_vec = init_vecs / init_vecs.abs().amax(dim=dim_dimension, keepdim=True)
+    q_0_vec = q_0_vec / torch.norm(q_0_vec, 2, dim=dim_dimension).unsqueeze(dim_dimension)
     q_mat[0].copy_(q_0_vec)
 
     # Initial alpha value: alpha_0
